@@ -1,30 +1,63 @@
 (* C03 — Every request's connection acquisition terminates; nobody is stranded.
-   Statements only; proofs in pool/ProofsC03.v (invariant and tracker relation in pool/FramesC03.v) and
-   pool/ProofsLite2.v.
-   FULL STATEMENT (the monitor theorem, for every configuration and every operation history):
-     forall cfg body u p, mon_C03 cfg (body ++ drain_ops (count_issues body) u p) true
-                                  (trace cfg (body ++ drain_ops (count_issues body) u p)) = true
-   i.e. (a) no lost wake-up, (b) nothing after cancel/completion, (c) after the closing procedure
-   every request and a fresh probe hold a connection or an error.
-   PROVED (no axioms), for every configuration and EVERY finite operation sequence:
-     [c03_no_lost_wakeup_and_quiet] = clauses (a) and (b): the per-operation check [chk_C03] accepts every
-     operation of the model's trace: whenever a request whose last poll returned Pending makes progress
-     (is handed a connection, or resolves) it was in the woken set observed after the previous
-     operation, and no event is ever recorded for a request after its cancellation or completion.
-     The invariant behind it (Inv, pool/FramesC03.v): a checkout whose last poll was pending has its waker
-     registered on its channel, its own dial (if in flight) was polled by the request itself, and if a
-     poll would now complete (channel filled / sender dropped / dial resolved / exchange finished) the
-     request is woken; delayed connector tasks only exist for requests that are no checkouts any more.
-   STILL MISSING: clause (c), the liveness half ([all_resolved] after [drain_ops]); see the end of this
-   header for the precise gap.  The per-primitive lemmas below (kept from the interim file) are its
-   building blocks.  The full monitor is evaluated on every implementation trace and the model is
+   Statements only; proofs in pool/ProofsC03.v (safety: wake invariant and tracker relation in
+   pool/FramesC03.v), pool/LiveC03.v + pool/LiveC03b.v + pool/LiveC03c.v (liveness) and pool/ProofsLite2.v.
+   FULLY PROVED (no axioms), for every configuration (pool enabled or not, any max_idle_per_host, any
+   idle timeout, both continue_after_preemption settings, any URI table) and EVERY finite operation
+   sequence [body] of any length (issue with either protocol / poll / cancel / finish / upgrade / dial
+   outcomes incl. failures / connection ready / closed / background run / clock tick):
+     [c03_monitor]: forall cfg body u p,
+        mon_C03 cfg (body ++ drain_ops (count_issues body) u p) true (trace cfg (body ++ drain_ops ...)) = true
+   i.e. the executable monitor of pool/Spec.v accepts the model's trace of [body] followed by the closing
+   procedure: (a) no lost wake-up, (b) nothing after cancel/completion, (c) after the closing procedure
+   every request and a fresh probe request hold a connection or an error (or were cancelled).
+     [c03_no_lost_wakeup_and_quiet] = clauses (a) and (b) alone, for every operation sequence (no closing
+   procedure needed): whenever a request whose last poll returned Pending makes progress (is handed a
+   connection, or resolves) it was in the woken set observed after the previous operation, and no
+   event is ever recorded for a request after its cancellation or completion.
+   Invariants behind it, proved for every reachable state:
+     Inv (pool/FramesC03.v): a checkout whose last poll was pending has its waker registered on its
+       channel, its own in-flight dial was polled by the request itself, and if a poll would now complete
+       (channel filled / sender dropped / dial resolved / exchange finished) the request is woken;
+     Lv (pool/LiveC03b.v): every in-progress mark names a living owner (an owning checkout, or its
+       delayed connector task: D4/D17 repairs), every checkout that waits for another request's attempt
+       and has been neither served nor released is queued under a marked token (so the end of the
+       attempt - success, failure, cancellation - serves or releases it), a live connector has a live
+       dial, and every delayed connector task is unique per request and is scheduled, or registered as
+       the poller of its in-flight dial.
+   The closing procedure is followed phase by phase (pool/LiveC03c.v): poll all -> dials in flight;
+   resolve all -> dials resolved, delayed connectors resolved; background -> ; poll all -> only pure
+   waiters remain; background -> no delayed connector left, hence no mark, hence every waiter served
+   or released; poll all -> nobody waits; the rest of the procedure keeps that; the probe is issued
+   without any mark, owns its connector (or finds an idle connection) and completes.
+   NOTHING IS MISSING for the stated theorem.  The per-primitive lemmas below are kept from the
+   interim file.  The full monitor is also evaluated on every implementation trace and the model is
    compared with the implementation after every operation. *)
-From HD Require Import common.Base http.Model pool.Model pool.Spec pool.ProofsLite pool.ProofsLite2 pool.FramesC03 pool.ProofsC03.
+From HD Require Import common.Base http.Model pool.Model pool.Spec pool.ProofsLite pool.ProofsLite2 pool.FramesC03 pool.ProofsC03
+  pool.LiveC03 pool.LiveC03b pool.LiveC03c.
 
 Theorem c03_no_lost_wakeup_and_quiet : forall cfg ops, mon_with chk_C03 cfg ops (trace cfg ops) = true.
 Proof. exact mon_C03_steps_holds. Qed.
 Check c03_no_lost_wakeup_and_quiet : forall cfg ops, mon_with chk_C03 cfg ops (trace cfg ops) = true.
 Print Assumptions c03_no_lost_wakeup_and_quiet.
+
+Theorem c03_monitor : forall cfg body u p,
+  let ops := body ++ drain_ops (count_issues body) u p in mon_C03 cfg ops true (trace cfg ops) = true.
+Proof. exact mon_C03_holds. Qed.
+Check c03_monitor : forall cfg body u p,
+  let ops := body ++ drain_ops (count_issues body) u p in mon_C03 cfg ops true (trace cfg ops) = true.
+Print Assumptions c03_monitor.
+
+(* the model-level reading of clause (c): after the closing procedure no request of the model is still a
+   checkout (or an unpolled URI error) *)
+Theorem c03_drain_resolves : forall cfg body u p r rq,
+  get_req (run cfg (body ++ drain_ops (count_issues body) u p)) r = Some rq -> is_lv rq = false.
+Proof. exact drain_resolves. Qed.
+Print Assumptions c03_drain_resolves.
+
+(* the ownership / scheduling invariant holds in every reachable state *)
+Theorem c03_live_invariant : forall cfg ops, Lv cfg None None (run cfg ops).
+Proof. intros cfg ops. exact (proj1 (proj2 (Reach_run cfg ops))). Qed.
+Print Assumptions c03_live_invariant.
 
 Theorem c03_delivery_wakes_partial : forall w p s ck,
   get_req s w = Some (RCheckout ck) -> k_rxpolled ck = true -> w < List.length (woken s) ->
